@@ -89,7 +89,10 @@ def style_catalogue():
       sp.TextShadowType((S(L(1, U.px), L(2, U.px), L(3, U.px)),)), sp.TextShadowType((S(L(1, U.pct), L(2, U.pct), None, red),)),
       sp.TextShadowType((S(L(1, U.em), L(1, U.em), L(0.5, U.em), red),)),
       sp.TextShadowType((S(L(1, U.em), L(1.2, U.em)), S(L(0.5, U.em), L(0.7, U.em), L(1, U.em), red))),
-      sp.TextShadowType((S(L(1, U.px), L(1, U.px)), S(L(-1, U.px), L(-1, U.px), None, red), S(L(2, U.c), L(0, U.c), L(1, U.c)))))
+      sp.TextShadowType((S(L(1, U.px), L(1, U.px)), S(L(-1, U.px), L(-1, U.px), None, red), S(L(2, U.c), L(0, U.c), L(1, U.c)))),
+      # pixel lengths only in a LATER shadow, after one with a non-pixel blur radius (the pixel extent must still be written)
+      sp.TextShadowType((S(L(0.1, U.em), L(0.1, U.em), L(0.2, U.em)), S(L(2, U.px), L(3, U.px)))),
+      sp.TextShadowType((S(L(1, U.c), L(1, U.c), L(1, U.c), red), S(L(1, U.pct), L(1, U.pct)), S(L(1, U.em), L(1, U.em), L(4, U.px)))))
   add("UnicodeBidi", sp.UnicodeBidiType.normal, sp.UnicodeBidiType.embed, sp.UnicodeBidiType.bidiOverride)
   add("Visibility", sp.VisibilityType.visible, sp.VisibilityType.hidden)
   add("WrapOption", sp.WrapOptionType.wrap, sp.WrapOptionType.noWrap)
@@ -102,6 +105,8 @@ def style_catalogue():
 def time_value(rng, profile, fps, lo, hi):
   """A time in [lo, hi] seconds (Fraction) of the given class."""
   base = Fraction(rng.randint(int(lo * 4), int(hi * 4)), 4)
+  if (fps is None or Fraction(fps).denominator == 1) and profile in ("frame", "ms", "") and rng.random() < 0.06:
+    base += 86400        # a day later (integer rates only: 32-bit tick products)
   if profile == "frame":
     f = fps if fps else Fraction(25)
     return Fraction(round(base * f)) / f
